@@ -168,6 +168,8 @@ class State:
         self.ambient = {k: get() for k, (get, _) in AMBIENT.items()}
         self.saved = {ns: dict(d) for ns, (_, d, _) in self.spaces.items()}
         self.saved_fp = {ns: {k: self._fp(v) for k, v in s.items()} for ns, s in self.saved.items()}
+        self.contents = {(ns, k): (v.copy() if not isinstance(v, list) else list(v)) for ns, s in self.saved.items()
+                         for k, v in s.items() if type(v) in (dict, list, set)}    # to undo in-place mutation
 
     @staticmethod
     def _fp(v):
@@ -200,6 +202,13 @@ class State:
             _, d, cls = self.spaces[ns]
             old = self.saved[ns]
             if how == "mutated":
+                v, was = d[k], self.contents.get((ns, k))
+                if was is not None:
+                    if isinstance(v, list):
+                        v[:] = was
+                    else:
+                        v.clear()
+                        v.update(was)
                 continue
             if cls is None:
                 if k in old:
